@@ -34,10 +34,10 @@ QUICK = [
     ({"L": 3, "MaxP": 2, "MaxSO": 2, "NBuf": 1, "NTexts": 2, "SOKinds": 2, "NParts": 1}, "3 typed cells (4 types), <=2 patches, <=2 source-only slices"),
     ({"L": 4, "MaxP": 1, "MaxSO": 2, "NBuf": 1, "NTexts": 2, "SOKinds": 2, "NParts": 1}, "4 typed cells (4 types), one patch of every span / category"),
 ]
-THOROUGH = [
-    ({"L": 3, "MaxP": 3, "MaxSO": 3, "NBuf": 1, "NTexts": 2, "SOKinds": 2, "NParts": 4}, "3 typed cells (4 types), <=3 patches"),
-    ({"L": 4, "MaxP": 2, "MaxSO": 2, "NBuf": 1, "NTexts": 2, "SOKinds": 2, "NParts": 6}, "4 typed cells (4 types), <=2 patches, <=2 source-only slices"),
-    ({"L": 5, "MaxP": 1, "MaxSO": 2, "NBuf": 1, "NTexts": 2, "SOKinds": 2, "NParts": 4}, "5 typed cells (4 types), one patch of every span / category"),
+THOROUGH = [   # the first two are C30's thorough scopes (shared model-run cache), judged here on TemplateCellsPreserved
+    ({"L": 3, "MaxP": 3, "MaxSO": 2, "NBuf": 1, "NTexts": 2, "SOKinds": 2, "NParts": 4}, "3 typed cells (4 types), <=3 patches, <=2 source-only slices"),
+    ({"L": 4, "MaxP": 2, "MaxSO": 2, "NBuf": 1, "NTexts": 2, "SOKinds": 1, "NParts": 2}, "4 typed cells, <=2 patches, <=2 source-only slices"),
+    ({"L": 5, "MaxP": 1, "MaxSO": 2, "NBuf": 1, "NTexts": 2, "SOKinds": 2, "NParts": 2}, "5 typed cells (4 types), one patch of every span / category"),
 ]
 
 
@@ -49,7 +49,7 @@ def s_to_c(rep: Report, tier: str) -> None:
             m = P.enumerate_cases(dict(consts, Part=part), timeout=2400)
             w = what + (f" [part {part + 1}/{n}]" if n > 1 else "")
             expect_model_ok(m, "Patches Algo => TemplateCellsPreserved: " + w)
-            rep.model(m, w)
+            rep.model(m, w + (" [model run restored from cache]" if getattr(m, "cached", False) else ""))
             if m.distinct != 2 * len(m.records) or not m.records:
                 raise MachineryError(f"Patches ({w}): {m.distinct} states but {len(m.records)} emitted cases")
             c30.quiet()
@@ -123,10 +123,10 @@ def inputs(tier: str, seed: int):
         for rs in (["all", "layout"] if tier == "thorough" else ["all"]):
             items.append((f"fixture:{os.path.relpath(f, sq.FIX)}@{rs}", sq.read(f), rs, None, f,
                           {"src": "templater-fixture", "rule": rs, "templated": True}))
-    ngen = 220 if tier == "quick" else 3000
+    ngen = 220 if tier == "quick" else 1000
     jcfg = {"core": {"dialect": "ansi"}, "templater": {"jinja": {"context": P.JINJA_CTX}}}
     for i, (name, t) in enumerate(P.jinja_templates(ngen, rnd)):
-        rs = RULESETS_JINJA[i % len(RULESETS_JINJA)]
+        rs = RULESETS_JINJA[(i + i // 11) % len(RULESETS_JINJA)]
         items.append((name + "@" + rs, t, rs, jcfg, None, {"src": "generated-jinja", "rule": rs, "templated": True}))
     for i, (name, templater, sqlt, tcfg) in enumerate(P.other_templates(40 if tier == "quick" else 400, rnd)):
         rs = ["all", "layout", "core"][i % 3]
